@@ -160,7 +160,7 @@ func TestC08SMTSmall(t *testing.T) {
 			}
 			ref := sm.BuildFromLeaves(leaves)
 			really := parallel && len(ops) >= 16
-			ec.Desc("b%d:n%d:par=%v:ed%d:%x", b, len(ops), really, effDel, opsHashV(ops))
+			ec.Desc("b%d:n%d:par=%v:ed%d[%s]%x", b, len(ops), really, effDel, previewV(ops, keyBits, 5), opsHashV(ops))
 			ec.ClassIf(really, "parallel-batch")
 			ec.ClassIf(!really, "sequential-batch")
 			ec.ClassIf(excluded > 0, "reserved-position-excluded")
@@ -213,6 +213,26 @@ func bitstr(b sm.Bits) string {
 		o[i] = '0' + x
 	}
 	return string(o)
+}
+
+func previewV(ops []store.VerifOp, keyBits, n int) string {
+	var b bytes.Buffer
+	for i, o := range ops {
+		if i == n {
+			b.WriteString(" …")
+			break
+		}
+		if i > 0 {
+			b.WriteByte(' ')
+		}
+		h := sha256.Sum256(o.Key)
+		if o.Delete {
+			fmt.Fprintf(&b, "del@%s", bitstr(sm.BitsOf(h[:], keyBits)))
+		} else {
+			fmt.Fprintf(&b, "set@%s=%x", bitstr(sm.BitsOf(h[:], keyBits)), o.Value)
+		}
+	}
+	return b.String()
 }
 
 func opsHashV(ops []store.VerifOp) uint64 {
